@@ -173,6 +173,10 @@ func applyTarget(target []byte, st *state.State, ca cache.Memory, ctx context.Co
 		return location, idx, nil
 	default:
 		sym = string(target)
+		if st.Depth()+1 > state.MaxLevel {
+			// state.Down panics beyond this; a client that keeps descending must get an error instead
+			return sym, idx, fmt.Errorf("max levels exceeded (%d)", state.MaxLevel)
+		}
 		err := st.Down(sym)
 		if err != nil {
 			return sym, idx, err
